@@ -16,7 +16,7 @@ type Prelude struct {
 	Net    *labnet.Net
 	Blocks []*labnet.B // Blocks[h-1] = block at height h
 	Tip    *labnet.B
-	Base   *crashkv.DB // store image after the prelude (clone it)
+	Base   *crashkv.DB  // store image after the prelude (clone it)
 	U      []labnet.Out // normal outputs, 150_000_000 each, distinct programs Prog(0x10+i)
 	// Coinbase reward outputs by the height of the paying block (E=2: odd heights >= 3)
 	Reward map[uint64]labnet.Out
